@@ -14,8 +14,8 @@ from sem import gen_c01_ext as GX  # noqa: E402
 from sem import runner as R  # noqa: E402
 from sem import check_common as CC  # noqa: E402
 
-QUICK = {'case': 70, 'nvl': 30, 'member': 30, 'string': 50, 'time': 16}
-THOROUGH = {'case': 1500, 'nvl': 600, 'member': 600, 'string': 1000, 'time': 300}
+QUICK = {'case': 70, 'nvl': 30, 'member': 30, 'string': 44, 'instr': 24, 'time': 16}
+THOROUGH = {'case': 1500, 'nvl': 600, 'member': 600, 'string': 1000, 'instr': 300, 'time': 300}
 
 
 def classify_ext(case, verdict, detail, eng_out):
@@ -47,7 +47,8 @@ def classify_ext(case, verdict, detail, eng_out):
         later = ops[ops.index('case') + 1:]
         if 'nvl' in later or (bad and all(all(v is None for n, v in zip(names, r) if n not in idn) for r in bad)):
             return 'case:datapoint-kept-with-null-measures-when-the-winning-dataset-operand-lacks-it:seen-through-a-later-statement'
-    if case.get('stream') == 'case' and nested and 'case' in ops and ops[-1] != 'case' and verdict.startswith('DISAGREE'):
+    if case.get('stream') == 'case' and nested and 'case' in ops and verdict.startswith('DISAGREE'):
+        # case composed with another dataset operator (as its operand or over its result) inside ONE statement
         return 'nested-expression:dataset-level-case-inside-another-operator'
     if verdict == 'DISAGREE:identifiers' and 'zip_nvl' in ops and set(detail[1]) < set(detail[0]):
         # nvl(DS_a, DS_b) where DS_a has fewer identifiers than DS_b: the result keeps only DS_a's identifiers
@@ -55,9 +56,10 @@ def classify_ext(case, verdict, detail, eng_out):
     return CC.classify(case, verdict, detail, eng_out)
 
 
-def run_stream_ext(ck, stream, n):
+def run_streams_ext(ck, plan):
+    """one driver start and one engine pool for all streams (pool start-up dominates small batches)."""
     g = GX.GenX(ck.rng)
-    cases = [g.case(stream) for _ in range(n)]
+    cases = [g.case(stream) for stream, n in plan for _ in range(n)]
     answers = ck.driver('C01Ext', [c['mreq'] for c in cases])
     outs = R.run_engine(cases)
     res = []
@@ -115,9 +117,7 @@ def report_ext(ck, results, min_agree=10):
 def run_ext(ck):
     plan = QUICK if ck.quick() else THOROUGH
     scale = float(os.environ.get('VERIF_EXT_SCALE', 1))
-    res = []
-    for stream, n in plan.items():
-        res += run_stream_ext(ck, stream, max(1, int(n * scale)))
+    res = run_streams_ext(ck, [(stream, max(1, int(n * scale))) for stream, n in plan.items()])
     return report_ext(ck, res)
 
 
